@@ -469,9 +469,14 @@ func (w *worker) trimContent(src *fileState, keepOld bool, cutoffUS int64, keep 
 	}
 	dir := filepath.Join(w.root, "trimtmp")
 	must(os.MkdirAll(dir, 0o755), "mkdir")
-	in, out := filepath.Join(dir, "in.parquet"), filepath.Join(dir, "out.parquet")
+	// a fresh pair of names per call: DuckDB keeps per-path file metadata (external file cache, validated by
+	// modification time), and two different contents written to the SAME path within its time granularity made it
+	// read the new bytes with the old footer ("Snappy decompression failure") once in ~30 runs
+	w.trimSeq++
+	in, out := filepath.Join(dir, fmt.Sprintf("in%d.parquet", w.trimSeq)), filepath.Join(dir, fmt.Sprintf("out%d.parquet", w.trimSeq))
 	must(os.WriteFile(in, src.Bytes, 0o644), "write")
-	os.Remove(out)
+	defer os.Remove(in)
+	defer os.Remove(out)
 	where := fmt.Sprintf("time >= make_timestamp(%d)", cutoffUS) // rows the DELETE removes
 	if !keepOld {
 		where = fmt.Sprintf("time < make_timestamp(%d)", cutoffUS)
